@@ -46,10 +46,13 @@
 package coregex
 
 import (
+	"bytes"
 	"io"
 	"iter"
 	"regexp/syntax"
 	"strings"
+	"unicode"
+	"unicode/utf8"
 	"unsafe"
 
 	"github.com/coregx/coregex/meta"
@@ -946,51 +949,97 @@ func (r *Regex) ExpandString(dst []byte, template string, src string, match []in
 }
 
 // expand appends template to dst and returns the result; during the
-// append, it replaces $1, $2, etc. with the corresponding submatch.
-// $0 is the entire match.
+// append, it replaces $name, ${name}, $1, ${1}, ... with the corresponding
+// submatch and $$ with a literal $, following the rules of stdlib's
+// Regexp.Expand.
 func (r *Regex) expand(dst []byte, template []byte, src []byte, match []int) []byte {
-	i := 0
-	for i < len(template) {
-		if template[i] != '$' || i+1 >= len(template) {
-			dst = append(dst, template[i])
-			i++
+	for len(template) > 0 {
+		i := bytes.IndexByte(template, '$')
+		if i < 0 {
+			break
+		}
+		dst = append(dst, template[:i]...)
+		template = template[i+1:]
+		if len(template) > 0 && template[0] == '$' {
+			// Treat $$ as $.
+			dst = append(dst, '$')
+			template = template[1:]
 			continue
 		}
-
-		// Handle $ escape sequences
-		next := template[i+1]
-
-		// Check for $0-$9
-		if next >= '0' && next <= '9' {
-			groupNum := int(next - '0')
-			// Each group occupies 2 indices in match array
-			groupIdx := groupNum * 2
-			if groupIdx+1 < len(match) && match[groupIdx] >= 0 {
-				dst = append(dst, src[match[groupIdx]:match[groupIdx+1]]...)
+		name, num, rest, ok := extract(template)
+		if !ok {
+			// Malformed; treat $ as raw text.
+			dst = append(dst, '$')
+			continue
+		}
+		template = rest
+		if num >= 0 {
+			if 2*num+1 < len(match) && match[2*num] >= 0 {
+				dst = append(dst, src[match[2*num]:match[2*num+1]]...)
 			}
-			i += 2
-			continue
+		} else {
+			for i, namei := range r.SubexpNames() {
+				if string(name) == namei && 2*i+1 < len(match) && match[2*i] >= 0 {
+					dst = append(dst, src[match[2*i]:match[2*i+1]]...)
+					break
+				}
+			}
 		}
+	}
+	dst = append(dst, template...)
+	return dst
+}
 
-		// Check for ${name} - not supported yet, treat as literal
-		if next == '{' {
-			dst = append(dst, '$')
-			i++
-			continue
+// extract returns the name from a leading "name" or "{name}" in str.
+// (The $ has already been removed by the caller.)
+// If it is a number, extract returns num set to that number; otherwise num = -1.
+func extract(str []byte) (name []byte, num int, rest []byte, ok bool) {
+	if len(str) == 0 {
+		return
+	}
+	brace := false
+	if str[0] == '{' {
+		brace = true
+		str = str[1:]
+	}
+	i := 0
+	for i < len(str) {
+		c, size := utf8.DecodeRune(str[i:])
+		if !unicode.IsLetter(c) && !unicode.IsDigit(c) && c != '_' {
+			break
 		}
-
-		// $$ -> $
-		if next == '$' {
-			dst = append(dst, '$')
-			i += 2
-			continue
+		i += size
+	}
+	if i == 0 {
+		// empty name is not okay
+		return
+	}
+	name = str[:i]
+	if brace {
+		if i >= len(str) || str[i] != '}' {
+			// missing closing brace
+			return
 		}
-
-		// Unknown $ escape, treat as literal
-		dst = append(dst, '$')
 		i++
 	}
-	return dst
+
+	// Parse number.
+	num = 0
+	for i := 0; i < len(name); i++ {
+		if name[i] < '0' || '9' < name[i] || num >= 1e8 {
+			num = -1
+			break
+		}
+		num = num*10 + int(name[i]) - '0'
+	}
+	// Disallow leading zeros.
+	if name[0] == '0' && len(name) > 1 {
+		num = -1
+	}
+
+	rest = str[i:]
+	ok = true
+	return
 }
 
 // ReplaceAll returns a copy of src, replacing matches of the pattern
